@@ -126,9 +126,10 @@ def main():
     for k in range(jobs):
         shutil.rmtree(os.path.join(SCRATCH, f"slot{k}"), ignore_errors=True)
         # the alternative target dirs of bin/check for the scratch copies
-    for dname in os.listdir(os.path.join(ROOT, "target")):
-        if dname.startswith("alt-"):
-            shutil.rmtree(os.path.join(ROOT, "target", dname), ignore_errors=True)
+    import hashlib
+    for k in range(jobs):
+        tag = hashlib.md5(os.path.join(SCRATCH, f"slot{k}", "repo").encode()).hexdigest()[:10]
+        shutil.rmtree(os.path.join(ROOT, "target", "alt-" + tag), ignore_errors=True)
 
 if __name__ == "__main__":
     main()
